@@ -355,11 +355,11 @@ func LeafValue(r *rand.Rand, s *model.Schema, name string) interface{} {
 	return nil
 }
 
-var strPool = []string{"", "a", "hello", "with space", "quote\"d", "back\\slash", "new\nline", "tab\t", "üñí", "😀", "{}", "null", "0", "true"}
+var strPool = []string{"", "a", "hello", "with space", "quote\"d", "back\\slash", "new\nline", "tab\t", "üñí", "😀", "{}", "null", "0", "true", "tag \U000E0001 char", "last \U0010FFFF rune"}
 
 // ctrlPool are resolver-side strings (data only, never written into documents) made of characters a JSON writer must
 // escape or pass through with care, WITHOUT any of the everyday escapes (quote, backslash, \b \f \n \r \t) next to them.
-var ctrlPool = []string{"nul\x00z", "\x01", "esc\x1b[0m", "del\x7f", "bell\x07", "us\x1f", "\x02\x03", "ls\u2028ps\u2029", "real \ufffd replacement char", "nel\u0085", "\x0b vt \x0e so",
+var ctrlPool = []string{"tag \U000E0001 char", "last \U0010FFFF rune", "private \U000F0000 use", "nul\x00z", "\x01", "esc\x1b[0m", "del\x7f", "bell\x07", "us\x1f", "\x02\x03", "ls\u2028ps\u2029", "real \ufffd replacement char", "nel\u0085", "\x0b vt \x0e so",
 	// bytes that are not UTF-8 (a resolver may hand out anything): a lone 0xff before ordinary characters, before a quote, as
 	// the last byte, a truncated two-byte sequence at the very end
 	"a\xffbcd", "q\xff\"b\\", "last\xff", "caf\xc3",
